@@ -18,14 +18,16 @@
        either unchanged or exactly reduced (no third outcome), other channels unchanged;
      - DeleteTimeRange naming an index channel while a channel it indexes (not itself named)
        has a sample with stamp in [a,b) must fail and leave the index channel unchanged;
-     - GC and reopen change no read.
+     - GC and reopen change no read;
+     - the history is judged up to the first failed write (a failed multi-channel write may
+       leave a channel committed without its index: not this property's subject).
    Data samples get their stamps from the index channel's read of the whole time line in
    the same observation (the k-th value of a series covering [s,e) carries the k-th index
    stamp in [s,e)); a series whose length differs from the number of such stamps cannot be
    attributed and is skipped on the "before" side (that would be a read defect, C01). *)
 From Coq Require Import ZArith List Bool.
 From Synnax Require Import Common.Base Cesium.Store Cesium.IndexSearch Cesium.Distance
-  Cesium.Stamp Cesium.DeleteModel Cesium.GCModel.
+  Cesium.Stamp Cesium.DeleteModel Cesium.GCModel Cesium.DeleteCheck.
 Import ListNotations.
 Local Open Scope Z_scope.
 
@@ -93,9 +95,24 @@ Definition case_model_old (c : case_t) : list oobs :=
   let '(cap, thr, chs, ranges, steps) := c in
   model_trace false (mk_gcfg cap thr) ranges (init_db chs) (map fst steps).
 
-Definition mismatch (c : case_t) : bool :=
+(* every state the model goes through satisfies the invariant under which the theorems of
+   Properties/C04.v are proved (DeleteCheck.db_okb, sound by db_okb_ok) *)
+Fixpoint model_states (fx : bool) (g : gcfg) (d : db) (ops : list op) : list db :=
+  match ops with
+  | [] => []
+  | o :: r => let d' := fst (step fx g d o) in d' :: model_states fx g d' r
+  end.
+Definition inv_holds (c : case_t) : bool :=
+  let '(cap, thr, chs, ranges, steps) := c in
+  forallb db_okb (model_states repo_fx (mk_gcfg cap thr) (init_db chs) (map fst steps)).
+
+Definition mismatch_obs (c : case_t) : bool :=
   let '(cap, thr, chs, ranges, steps) := c in
   negb (zlist_eqb (enc_list enc_oobs (case_model c)) (enc_list enc_oobs (map snd steps))).
+
+(* a case "mismatches" if the model's observations differ from the implementation's, or if
+   the model leaves the invariant *)
+Definition mismatch (c : case_t) : bool := mismatch_obs c || negb (inv_holds c).
 
 (* the same comparison against the model of the pinned upstream code (used by the
    detection self-tests: reverting the fix commit must flip both) *)
@@ -245,10 +262,16 @@ Definition ok_step (chs : list chdecl) (o0 : oobs) (o : op) (o1 : oobs) : bool :
   | OWrite _ _ => true
   end.
 
+(* A write that fails may have committed on some of its channels only (each channel of a
+   writer commits on its own); such a state is outside this property (C03: conflicting writes
+   fail cleanly): the monitor stops judging the history there. *)
+Definition failed_write (o : op) (o1 : oobs) : bool :=
+  match o with OWrite _ _ => failed_of o1 | _ => false end.
+
 Fixpoint ok_steps (chs : list chdecl) (o0 : oobs) (steps : list (op * oobs)) : bool :=
   match steps with
   | [] => true
-  | (o, o1) :: r => ok_step chs o0 o o1 && ok_steps chs o1 r
+  | (o, o1) :: r => if failed_write o o1 then true else ok_step chs o0 o o1 && ok_steps chs o1 r
   end.
 
 (* the observation of the freshly created database: nothing readable *)
@@ -266,6 +289,7 @@ Fixpoint bad_steps_from (chs : list chdecl) (o0 : oobs) (steps : list (op * oobs
   match steps with
   | [] => []
   | (o, o1) :: r =>
+      if failed_write o o1 then [] else
       (if ok_step chs o0 o o1 then [] else [n]) ++ bad_steps_from chs o1 r (S n)
   end.
 Definition bad_steps (c : case_t) : list nat :=
